@@ -148,7 +148,18 @@ def _case(spec):
             desc.update(base=base, edits=hostile.raw_mutate(root, rng))
             label = "raw:" + base.split(":")[0]
         cid = f"{kind}:{spec.get('profile') or spec.get('shape') or spec.get('base')}:{spec['seed']}"
-        r = cc.run_cli_timed(spec["cli"], root)
+        if spec.get("asan"):
+            r = cc.run_cli_timed(spec["cli"], root, extra_env={"ASAN_OPTIONS": "detect_leaks=0:halt_on_error=1:abort_on_error=0:exitcode=97", "RUST_MIN_STACK": str(512 << 20)}, stack_mb=1024)
+            out["stats"]["compiles_under_asan"] += 1
+            m = re.search(r"ERROR: AddressSanitizer: ([A-Za-z-]+)", r.stderr)
+            if m:
+                fr = re.findall(r"#\d+ 0x[0-9a-f]+ in (\S+) (\S+)", r.stderr)
+                first = next((f for f, at in fr if runner.REPO_PREFIX in at), fr[0][0] if fr else "?")
+                out["violations"].append({"rule": "asan", "signature": f"C08/asan/{m.group(1)}@{first[:80]}",
+                                          "what": f"AddressSanitizer: {m.group(1)} in {first} while compiling {kind}:{spec.get('shape') or spec.get('profile') or spec.get('base')}:{spec['seed']}",
+                                          "witness": {"spec": {k: v for k, v in spec.items() if k not in ('cli', 'root')}, "stderr_head": r.stderr[:3000]}})
+        else:
+            r = cc.run_cli_timed(spec["cli"], root)
         out["stats"]["compiles"] += 1
         out["stats"]["w:" + label.split(":")[0]] += 1
         out["stats"]["ok" if r.ok() else "rejected"] += 1
@@ -205,6 +216,16 @@ def run(ctx):
     bases = ["checked-in:" + p["name"] for p in cc.checked_in_projects()] + ["hostile-base", "generated:core", "generated:keys"]
     for i in range(n_raw):
         add(kind="raw", base=bases[i % len(bases)], seed=subseed(ctx.seed, "c08r", i) % (1 << 48))
+    asan_note = None
+    if not ctx.quick() or os.environ.get("VERIF_C08_ASAN"):
+        # thorough: the same workloads (a sample) under an AddressSanitizer build of the CLI
+        try:
+            acli = runner.build_cli_asan()
+            sample = [dict(sp, cli=acli, asan=True, root=sp["root"] + "-asan") for i, sp in enumerate(specs)
+                      if sp.get("shape") not in hostile.HEAVY and i % ctx.pick(40, 12) == 0]
+            specs += sample
+        except runner.Inconclusive as e:
+            asan_note = f"ASan leg inconclusive: {e}"
     with ProcessPoolExecutor(max_workers=runner.NCPU) as ex:
         results = list(ex.map(_case, specs, chunksize=1))
     errs = [r["error"] for r in results if r.get("error")]
@@ -221,7 +242,8 @@ def run(ctx):
         if r["sample"] and len(samples) < 4 and all(s["recipe"].get("workload") != r["sample"]["recipe"].get("workload") for s in samples):
             samples.append(r["sample"])
     cov = {"evaluations": stats["compiles"], "distinct_nontrivial": len(distinct), "rule": RULE, "samples": samples or [{"note": "none"}],
-           "observed": dict(stats), "max_child_cpu_s": round(maxcpu, 2), "shapes": len(hostile.SHAPES)}
+           "observed": dict(stats), "max_child_cpu_s": round(maxcpu, 2), "shapes": len(hostile.SHAPES),
+           "asan_leg": asan_note or f"{stats.get('compiles_under_asan', 0)} compiles under an AddressSanitizer build of the CLI (thorough only)"}
     return runner.finish(ctx, LEVEL, cov, v, assumptions=[
         "a configuration whose schema / paths do not exist is not 'well-formed'; the CLI's deliberate panics while loading such a config are counted, not judged",
         "watch-mode recompiles are monitored by the C20 engine (rule c08-watch-panic)",
